@@ -7,3 +7,5 @@ open GoMail.Props.C18
 #print axioms body_chunk_independent
 #print axioms header_fold
 #print axioms qp_body_lines
+#print axioms signed_layer_write
+#print axioms counterexample_signed_content_type_line
